@@ -47,7 +47,8 @@ func chunksPer(tier string) int {
 func Spec() *run.Spec {
 	return &run.Spec{
 		ID: "C14", Level: "fault_enumeration", Exhaustive: true,
-		Rule: "Phase `cuts` (EXHAUSTIVE over the stated cut set): per run 128 (quick) / 1280 (thorough) valid files are generated, 8 / 80 of each of 16 kinds: PLY ascii / binary LE / binary BE " +
+		Rule: "Since round 7 the big files exceed 65536 records (STL, splat) or 32768 (SPZ, PTS), the record-count block sizes include 8192 and 32768, and every boundary of the largest block sizes is cut exactly (largest first) before the random sample. " +
+			"Phase `cuts` (EXHAUSTIVE over the stated cut set): per run 128 (quick) / 1280 (thorough) valid files are generated, 8 / 80 of each of 16 kinds: PLY ascii / binary LE / binary BE " +
 			"× {cloud, mesh, mesh with per-face texcoords} written by polyform, PLY of the three encodings written by an independent writer " +
 			"(CRLF, comments, double/uchar/int properties, quads, uint/int list counts, texcoord lists, `element face 0`, whitespace runs), " +
 			"the splat-PLY export, binary STL (polyform writer: zeroed comment; independent writer: 80-byte comments of 7 further kinds — random bytes, \"solid name\", \"  solid x\", \"SOLID …\", \"binary stl …\", text with a newline, 80 printable characters), SPZ v1 and v2 with every SH degree 0–3 from the reference encoder, each degree both deflated and in stored (level 0) blocks, " +
